@@ -6,6 +6,7 @@ from typing import Dict, List, Optional, Set, Tuple
 
 from ..cfg import CFG, ENTRY, EXIT
 from ..core import AnalysisError, FunctionInfo, Project, arg_for, dotted, is_const, kwarg, norm, param_names, walk_no_nested
+from .. import sym
 from ..util import assignments, count_negations, derived_names, header_calls, header_walk, mentions, returns_of, stmt_text
 from . import shared
 from .c02 import siblings_equal, _body_text
@@ -30,17 +31,32 @@ def r1(ctx):
     siblings_equal(ctx, "C05.R1", ["_get_columns_for_term", "_encode_constant", "_encode_numerical"])
     P = ctx.project
     a, b = P.cls(PANDAS).methods["_encode_categorical"], P.cls(NARWHALS).methods["_encode_categorical"]
-    ta, tb = _body_text(a.node), _body_text(b.node)
-    # whitelist 1: the narwhals→pandas conversion statement
-    conv = [t for t in tb if t.startswith("if nw.dependencies.is_narwhals_series(values):") and "values = values.to_pandas()" in t]
-    tb2 = [t for t in tb if t not in conv]
-    # whitelist 2: the output= renaming keyword in the encode_contrasts call
-    ren = "output='pandas' if spec.output == 'narwhals' else spec.output, "
-    tb3 = [t.replace(ren, "") for t in tb2]
+    from ..util import canon_ast
+    ta = _body_text(a.node)
+    nb = canon_ast(b.node)
+    # whitelist 1: the narwhals→pandas conversion statement (either spelling)
+    conv, rest = [], []
+    for st in nb.body:
+        if sym.pm_any(["if nw.dependencies.is_narwhals_series(values): values = values.to_pandas()",
+                       "values = values.to_pandas() if nw.dependencies.is_narwhals_series(values) else values"], st) is not None:
+            conv.append(st)
+        else:
+            rest.append(st)
+    # whitelist 2: output= of the encode_contrasts call renames 'narwhals' to 'pandas' and is otherwise the spec's output
+    ren_ok = False
+    for st in rest:
+        for c in ast.walk(st):
+            if isinstance(c, ast.Call) and dotted(c.func) == "encode_contrasts":
+                o = kwarg(c, "output")
+                if o is not None and norm(sym.simplify(o, {"spec.output == 'narwhals'": True})) == "'pandas'" \
+                        and norm(sym.simplify(o, {"spec.output == 'narwhals'": False})) == "spec.output":
+                    ren_ok = True
+                    c.keywords = [k for k in c.keywords if k.arg != "output"]
+    tb3 = [norm(st) for st in rest]
     ctx.look()
-    ctx.check(len(conv) == 1 and ta == tb3, "C05.R1", "pandas and narwhals `_encode_categorical` differ only by the pandas conversion and output renaming",
+    ctx.check(len(conv) == 1 and ren_ok and ta == tb3, "C05.R1", "pandas and narwhals `_encode_categorical` differ only by the pandas conversion and output renaming",
               b.where, ctx.construct(b, text="sibling _encode_categorical"),
-              f"after removing the two whitelisted differences the bodies differ: pandas={ta} narwhals={tb3}")
+              f"after removing the two whitelisted differences (conversion found={len(conv)}, output renaming ok={ren_ok}) the bodies differ: pandas={ta} narwhals={tb3}")
 
 
 # ----------------------------------------------------------------------------- R2 output strings
